@@ -534,9 +534,35 @@ let analyze (head : string) (fam : string) (lines : string array) : result =
   r.txs <- List.rev r.txs;
   r
 
+(* lines of the implementation log grouped by case index (streaming, no deep recursion:
+   a runaway case can print hundreds of thousands of lines) *)
+let max_lines = 150000
+let group_lines file : (int, string array) Hashtbl.t * (int, int) Hashtbl.t =
+  let tbl = Hashtbl.create 1024 and cnt = Hashtbl.create 1024 in
+  let ic = open_in file in
+  let cur = ref (-1) and acc = ref [] and nacc = ref 0 in
+  let flush () = if !cur >= 0 then begin
+      let prev = try Array.to_list (Hashtbl.find tbl !cur) with Not_found -> [] in
+      Hashtbl.replace tbl !cur (Array.of_list (prev @ List.rev !acc));
+      Hashtbl.replace cnt !cur ((try Hashtbl.find cnt !cur with Not_found -> 0) + !nacc) end;
+    acc := []; nacc := 0 in
+  (try while true do
+       let l = input_line ic in
+       match String.index_opt l ' ' with
+       | None -> ()
+       | Some i ->
+         (match int_of_string_opt (String.sub l 0 i) with
+          | None -> ()
+          | Some k ->
+            if k <> !cur then begin flush (); cur := k end;
+            incr nacc;
+            if !nacc <= max_lines then acc := String.sub l (i + 1) (String.length l - i - 1) :: !acc)
+     done with End_of_file -> ());
+  flush (); close_in ic; (tbl, cnt)
+
 let () =
   let cases = read_lines Sys.argv.(1) in
-  let impl = impl_table Sys.argv.(2) in
+  let (impl, implcnt) = group_lines Sys.argv.(2) in
   let tot_reads = ref 0 and tot_split = ref 0 and tot_short = ref 0 and tot_block = ref 0 and tot_tc = ref 0 and tot_w2 = ref 0 in
   List.iteri (fun k line ->
     match String.index_opt line '|' with
@@ -547,13 +573,20 @@ let () =
       let fam = match split_on ';' body with
         | first :: _ -> (match words first with ["note"; f] when starts_with "fam=" f -> String.sub f 4 (String.length f - 4) | _ -> "other")
         | [] -> "other" in
-      let ls = impl_lines impl k in
+      let lsa = try Hashtbl.find impl k with Not_found -> [||] in
+      let nl = try Hashtbl.find implcnt k with Not_found -> 0 in
       let seg = ref [] and plain = ref [] and cur = ref None in
-      List.iter (fun l ->
+      Array.iter (fun l ->
         if l = "VARIANT seg" then cur := Some seg
         else if l = "VARIANT plain" then cur := Some plain
-        else match !cur with Some c -> c := l :: !c | None -> ()) ls;
-      let crashed = List.exists (fun l -> starts_with "MONITOR" l) ls in
+        else match !cur with Some c -> c := l :: !c | None -> ()) lsa;
+      let crashed = Array.exists (fun l -> starts_with "MONITOR" l) lsa in
+      let stalled = Array.exists (fun l -> starts_with "RUN iterations=" l && (let n = String.length l in n >= 5 && String.sub l (n - 5) 5 = "LIMIT")) lsa in
+      if nl > max_lines || stalled then begin
+        Printf.printf "CASE %d %s:stalled\n" k fam;
+        if not crashed then Printf.printf "FAIL %d stall the transfer did not complete: %s\n" k
+            (if stalled then "an event loop of the history hit its iteration limit" else Printf.sprintf "%d log lines" nl)
+      end else
       let a = analyze head fam (Array.of_list (List.rev !seg)) in
       if crashed || !plain = [] then begin
         Printf.printf "CASE %d %s:crashed\n" k fam;
